@@ -699,6 +699,24 @@ def _chain_from_iterable(interp, args, kwargs, node):
     segs = interp.segments(args[0], node)
     if all(sg[0] == "one" for sg in segs):
         return _chain_of(interp, [sg[1] for sg in segs], node, "chain.from_iterable")
+    # one inner sequence per member of a family: the members' elements, as a loop extending a list would leave them
+    out = []
+    ok = True
+    for sg in segs:
+        if sg[0] == "one":
+            out.extend(interp.segments(sg[1], node))
+        elif sg[0] == "each" and not (isinstance(sg[4], Ref) and isinstance(interp.deref(sg[4]), HList) and interp.deref(sg[4]).is_set):
+            _, evar, fam, g, inner = sg
+            for s in interp.segments(inner, node):
+                if s[0] == "one":
+                    out.append(("each", evar, fam, g, s[1]))
+                else:
+                    out.append(("each*", evar, fam, g, s))
+        else:
+            ok = False
+            break
+    if ok:
+        return interp.alloc(HList(out))
     interp.log("call.unknown", node, func=Sym(("ext", "itertools.chain.from_iterable")), args=tuple(args), kwargs=dict(kwargs))
     return Sym(("call", "itertools.chain.from_iterable", tuple(desc(a) for a in args), interp.fresh_id("c")))
 
@@ -710,11 +728,122 @@ def _chain(interp, args, kwargs, node):
     return _chain_of(interp, list(args), node, "chain")
 
 
+@ext("operator.itemgetter")
+def _itemgetter(interp, args, kwargs, node):
+    return Sym(("itemgetter", tuple(args)), "callable")
+
+
+@ext("operator.attrgetter")
+def _attrgetter(interp, args, kwargs, node):
+    return Sym(("attrgetter", tuple(args)), "callable")
+
+
+@ext("operator.methodcaller")
+def _methodcaller(interp, args, kwargs, node):
+    return Sym(("methodcaller", args[0], tuple(args[1:]), tuple(sorted(kwargs.items()))), "callable")
+
+
+def call_operator_object(interp, fv, args, kwargs, node):
+    """Calling what operator.itemgetter / attrgetter / methodcaller returned."""
+    kind = fv.label[0]
+    x = args[0]
+    if kind == "itemgetter":
+        vals = [interp.subscript(x, i, node) for i in fv.label[1]]
+        return vals[0] if len(vals) == 1 else TupleV(tuple(vals))
+    if kind == "attrgetter":
+        vals = []
+        for a in fv.label[1]:
+            if not (isinstance(a, Const) and isinstance(a.value, str)):
+                interp.err(node, "attrgetter with a computed name")
+            v = x
+            for part in a.value.split("."):
+                v = interp.getattr(v, part, node)
+            vals.append(v)
+        return vals[0] if len(vals) == 1 else TupleV(tuple(vals))
+    name = fv.label[1]
+    if not (isinstance(name, Const) and isinstance(name.value, str)):
+        interp.err(node, "methodcaller with a computed name")
+    return interp.call(interp.getattr(x, name.value, node), list(fv.label[2]), dict(fv.label[3]), node)
+
+
 @ext("itertools.count")
 def _count(interp, args, kwargs, node):
     start = args[0] if args else kwargs.get("start", Const(0))
     step = args[1] if len(args) > 1 else kwargs.get("step", Const(1))
     return interp.alloc(HOpaque("count", {"start": start, "step": step}))
+
+
+def _is_opaque(interp, a, typ):
+    return isinstance(a, Ref) and isinstance(interp.deref(a), HOpaque) and interp.deref(a).typ == typ
+
+
+@ext("itertools.repeat")
+def _repeat(interp, args, kwargs, node):
+    if len(args) != 1 or kwargs:
+        interp.err(node, "itertools.repeat with a count")
+    return interp.alloc(HOpaque("repeat", {"value": args[0]}))
+
+
+@ext("itertools.compress")
+def _compress(interp, args, kwargs, node):
+    """compress(data, selectors): the data whose selector is true - decided selector by selector for concrete sequences
+    (an undecided selector forks the path like the `if` of the loop it replaces)."""
+    data = interp.segments(args[0], node)
+    sel = interp.segments(args[1], node)
+    if all(s[0] == "one" for s in data) and all(s[0] == "one" for s in sel):
+        return interp.new_list([d[1] for d, c in zip(data, sel) if interp.truth(c[1])])
+    if len(data) == 1 and len(sel) == 1 and data[0][0] == "each" and sel[0][0] == "each" and data[0][2] == sel[0][2] and data[0][3] == sel[0][3] == PTRUE:
+        # both enumerate one family in step: the members whose selector holds
+        b = data[0][1]
+        cond = interp.pred_of(interp.inst(sel[0][4], {sel[0][1]: b}))
+        if cond[0] != "const":
+            return interp.alloc(HList([("each", b, data[0][2], cond, data[0][4])]))
+    interp.log("call.unknown", node, func=Sym(("ext", "itertools.compress")), args=tuple(args), kwargs=dict(kwargs))
+    return Sym(("call", "itertools.compress", tuple(desc(a) for a in args), interp.fresh_id("c")))
+
+
+@ext("operator.not_")
+def _op_not(interp, args, kwargs, node):
+    p = interp.pred_of(args[0])
+    return Const(not p[1]) if p[0] == "const" else PredV(pred_not(p))
+
+
+@ext("operator.truth")
+def _op_truth(interp, args, kwargs, node):
+    p = interp.pred_of(args[0])
+    return Const(p[1]) if p[0] == "const" else PredV(p)
+
+
+def _op_compare(name, op):
+    @ext("operator." + name)
+    def f(interp, args, kwargs, node, op=op):
+        return interp.compare(op, args[0], args[1], node)
+    return f
+
+
+for _n, _o in (("eq", "Eq"), ("ne", "NotEq"), ("lt", "Lt"), ("le", "LtE"), ("gt", "Gt"), ("ge", "GtE"), ("is_", "Is"), ("is_not", "IsNot")):
+    _op_compare(_n, _o)
+
+
+@ext("operator.contains")
+def _op_contains(interp, args, kwargs, node):
+    return interp.compare("In", args[1], args[0], node)
+
+
+def _op_binop(name, op):
+    @ext("operator." + name)
+    def f(interp, args, kwargs, node, op=op):
+        return interp.binop(op, args[0], args[1], node)
+    return f
+
+
+for _n, _o in (("add", "Add"), ("sub", "Sub"), ("mul", "Mult"), ("floordiv", "FloorDiv"), ("truediv", "Div"), ("mod", "Mod")):
+    _op_binop(_n, _o)
+
+
+@ext("operator.getitem")
+def _op_getitem(interp, args, kwargs, node):
+    return interp.subscript(args[0], args[1], node)
 
 
 def _is_count(interp, a):
@@ -757,8 +886,38 @@ def _zip(interp, args, kwargs, node):
 @ext("builtins.map")
 def _map(interp, args, kwargs, node):
     """map(f, xs): the sequence of f(x), element by element (evaluated where it is written, like a comprehension)."""
+    if len(args) > 2:
+        # several sequences: element-wise over concrete ones, an itertools.repeat(x) standing for x at every position
+        reps = [a for a in args[1:] if _is_opaque(interp, a, "repeat")]
+        lists = [None if _is_opaque(interp, a, "repeat") else interp.segments(a, node) for a in args[1:]]
+        known = [l for l in lists if l is not None]
+        if known and all(all(s[0] == "one" for s in l) for l in known):
+            n = min(len(l) for l in known)
+            res = []
+            for i in range(n):
+                row = [interp.deref(a).attrs["value"] if l is None else l[i][1] for a, l in zip(args[1:], lists)]
+                res.append(interp.call(args[0], row, {}, node))
+            return interp.new_list(res)
+        if len(known) == 1 and reps:
+            # one real sequence, the rest constant: map over that sequence with the constants filled in
+            pos = [i for i, l in enumerate(lists) if l is not None][0]
+
+            def row_of(x):
+                return [x if i == pos else interp.deref(a).attrs["value"] for i, a in enumerate(args[1:])]
+
+            out = []
+            for sg in known[0]:
+                if sg[0] == "one":
+                    out.append(("one", interp.call(args[0], row_of(sg[1]), {}, node)))
+                elif sg[0] == "each":
+                    out.append(("each", sg[1], sg[2], sg[3], interp.call(args[0], row_of(sg[4]), {}, node)))
+                else:
+                    b = interp.fresh_var("x")
+                    out.append(("each", b, ("members", sg[1]), PTRUE, interp.call(args[0], row_of(ElemV(b, "plain")), {}, node)))
+            return interp.alloc(HList(out))
+        interp.err(node, "map() with several sequences of unknown length")
     if len(args) != 2:
-        interp.err(node, "map() with several sequences")
+        interp.err(node, "map() without a sequence")
     fv, out = args[0], []
     for sg in interp.segments(args[1], node):
         if sg[0] == "one":
@@ -981,7 +1140,7 @@ def _collect(is_set):
             interp.log("copy", node, src=v, dst=cp)
             return cp
         segs = interp.segments(v, node)
-        r = interp.alloc(HList(segs, is_set=is_set))
+        r = interp.alloc(HList(dedupe_set_segs(segs) if is_set else segs, is_set=is_set))
         return r
 
     return h
@@ -1034,6 +1193,26 @@ def _dict(interp, args, kwargs, node):
     for k, v in kwargs.items():
         d.entries[k] = v
     return interp.alloc(d)
+
+
+@ext("collections.Counter")
+def _counter(interp, args, kwargs, node):
+    """Counter(xs) of concrete constants: how often each occurs, in order of first occurrence (anything else: unknown)."""
+    if len(args) == 1 and not kwargs:
+        segs = interp.segments(args[0], node)
+        if all(sg[0] == "one" and isinstance(sg[1], Const) and _surely_same_key(sg[1]) is not None for sg in segs):
+            counts = {}
+            first = {}
+            for sg in segs:
+                k = _surely_same_key(sg[1])
+                counts[k] = counts.get(k, 0) + 1
+                first.setdefault(k, sg[1])
+            d = HDict()
+            for k, n in counts.items():
+                interp.dict_store(d, first[k], Const(n), node)
+            return interp.alloc(d)
+    interp.log("call.unknown", node, func=Sym(("ext", "collections.Counter")), args=tuple(args), kwargs=dict(kwargs))
+    return Sym(("call", "collections.Counter", tuple(desc(a) for a in args), interp.fresh_id("c")))
 
 
 @ext("builtins.str")
@@ -1565,7 +1744,49 @@ def objdict_method(interp, ref, o: HObj, name, args, kwargs, node):
     interp.err(node, f"unsupported method {name} on an object's __dict__")
 
 
+def _surely_same_key(v):
+    """A key under which two values are certainly equal (so a set holds them once); None when nothing is known."""
+    if isinstance(v, Const):
+        try:
+            hash(v.value)
+        except TypeError:
+            return None
+        return ("c", v.value) if not isinstance(v.value, (bool, int, float)) else ("n", v.value)
+    if isinstance(v, Ref):
+        return ("r", v.oid)
+    if isinstance(v, ElemV):
+        return ("e", v.var, v.role)
+    if isinstance(v, TupleV):
+        ks = [_surely_same_key(x) for x in v.items]
+        return None if any(k is None for k in ks) else ("t", tuple(ks))
+    return None
+
+
+def dedupe_set_segs(segs):
+    """What a set keeps of these entries: a value that is certainly equal to an earlier one is not held twice."""
+    seen, out = set(), []
+    for sg in segs:
+        if sg[0] == "one":
+            k = _surely_same_key(sg[1])
+            if k is not None:
+                if k in seen:
+                    continue
+                seen.add(k)
+        out.append(sg)
+    return out
+
+
 def list_method(interp, ref, o: HList, name, args, kwargs, node):
+    if o.is_set and name in ("add", "update"):
+        before = list(o.segs)
+        if name == "add":
+            o.segs.append(("one", args[0]))
+        else:
+            for a in args:
+                o.segs.extend(interp.segments(a, node))
+        o.segs = dedupe_set_segs(o.segs)
+        interp.log("list.append" if name == "add" else "list.extend", node, obj=ref, value=args[0] if args else None)
+        return Const(None)
     if name in ("append", "add"):
         o.segs.append(("one", args[0]))
         interp.log("list.append", node, obj=ref, value=args[0])
